@@ -55,6 +55,7 @@ def configs(tier):
     for shape in ('leaf', 'stump'):
         for use_storage in (True, False):
             cfgs.append(dict(group='imputer', shape=shape, use_storage=use_storage, direct=False, q=2 if use_storage else 1, early=True, _cost=200))
+            cfgs.append(dict(group='imputer', shape=shape, use_storage=use_storage, direct=False, q=1, warm=True, _cost=400))
     cfgs.append(dict(group='paths_agree'))
     for shape in ('leaf', 'stump'):
         cfgs.append(dict(group='imputer_history', shape=shape, vary='a', _cost=600))
@@ -373,6 +374,10 @@ def _imputer(env, cfg, ctx):
         seen.append(x)
     if not cfg.get('early'):
         imp = guarded(env, 'ctor', TreeImputer, model, ts, direct_predict_numeric=cfg['direct'], use_storage=cfg['use_storage'])
+    if cfg.get('warm'):
+        # the imputer has been used before, for ALL features of another instance: nothing of that call may show in this one
+        guarded(env, 'impute#warm', imp.impute, ['c', 'a'], _row(env, 7), 1)
+        model.calls.clear()
     x = _row(env, 9)
     x_copy = dict(x)
     masks = [['c'], ['a'], ['c', 'a'], []]
@@ -455,4 +460,4 @@ META['explanation'] += " History group: impute, an update that restructures the 
 
 META['explanation'] += ' Special values: one update carries a concrete NaN / NumPy NaN / inf / 0.0 / False / NumPy int in one feature (IEEE routing: NaN <= t is false).'
 
-META['explanation'] += ' The imputer may be built before any data arrives.'
+META['explanation'] += ' The imputer may be built before any data arrives, and may have been used before for all features of another instance (warm=True).'
